@@ -2,6 +2,7 @@ package main
 
 import (
 	"fmt"
+	"regexp"
 	"strings"
 	"unicode/utf8"
 
@@ -12,9 +13,19 @@ func init() {
 	drivers["C16"] = runC16
 }
 
+type CaseSub2 struct {
+	Leaf2 string `sod:"index,upper"`
+}
+
+type CaseSub struct {
+	Leaf string `sod:"lower"`
+	Sub2 *CaseSub2
+}
+
 type CaseIn struct {
 	Deep  string `sod:"index,lower"`
 	Plain string `sod:"upper"`
+	Sub   *CaseSub
 }
 
 type CaseEmb struct {
@@ -65,6 +76,18 @@ var casePaths = []casePath{
 		return r.In.Plain
 	}},
 	{"CaseEmb.EU", true, func(r *CaseRec) string { return r.EU }},
+	{"In.Sub.Leaf", false, func(r *CaseRec) string {
+		if r.In == nil || r.In.Sub == nil {
+			return ""
+		}
+		return r.In.Sub.Leaf
+	}},
+	{"In.Sub.Sub2.Leaf2", true, func(r *CaseRec) string {
+		if r.In == nil || r.In.Sub == nil || r.In.Sub.Sub2 == nil {
+			return ""
+		}
+		return r.In.Sub.Sub2.Leaf2
+	}},
 }
 
 func canonCase(upper bool, s string) string {
@@ -95,7 +118,7 @@ func caseStrings(maxLen int) []string {
 func newCaseRec(s string, withIn bool) *CaseRec {
 	r := &CaseRec{U: s, L: s, UU: s, LL: s, LU: "lu" + s, NS: NamedStr(s), Raw: s, CaseEmb: CaseEmb{EU: s}}
 	if withIn {
-		r.In = &CaseIn{Deep: s, Plain: s}
+		r.In = &CaseIn{Deep: s, Plain: s, Sub: &CaseSub{Leaf: s, Sub2: &CaseSub2{Leaf2: s}}}
 	}
 	return r
 }
@@ -256,9 +279,16 @@ func runC16(c *Ctx) {
 						}
 						for _, probe := range probes {
 							cp := canonCase(p.Upper, probe)
-							for _, op := range []string{"=", "!=", "<", ">="} {
+							for _, op := range []string{"=", "!=", "<", ">=", "~="} {
 								want := false
+								probe := probe
+								if op == "~=" {
+									// a pattern is a search value too: it is canonicalised like one
+									probe = "^" + regexp.QuoteMeta(probe)
+								}
 								switch op {
+								case "~=":
+									want = strings.HasPrefix(stored, cp)
 								case "=":
 									want = stored == cp
 								case "!=":
